@@ -916,6 +916,11 @@ class Builder(object):
                 (command, rxa, txa)
             raise excepting.ParseError(msg, tokens, index)
 
+        if name in serving.Server.Names:
+            msg = "Error building %s. Task %s already exists." %\
+                  (command, name)
+            raise excepting.ParseError(msg, tokens, index)
+
         server = serving.Server(name=name, store = self.currentStore,)
         kw = dict(period=period, schedule=schedule, sha=sha, dha=dha, prefix=prefix,)
         kw.update(init)
